@@ -116,6 +116,78 @@ def nontrivial(case, impl):
     return False
 
 
+# ---- rounding-free histories (extraction group "dectransfer": the ledger under the
+# representable arithmetic [rep] of coq/Proofs/DecTransfer.v) ----
+def rep_free(r):
+    """the rep ledger of the case did not stop on an operator failure in any security
+    (hypothesis of C01_app_dec_equals_exact_when_representable)"""
+    if r["status"] not in ("ok", "panic") or "secs" not in r:
+        return False
+    return all(not (s["stop"][0] == 2 and s["stop"][1] in (1, 2)) for s in r["secs"].values())
+
+
+def rep_corpus():
+    """the two Examples of coq/Properties/C01.v (C01_rep_nonvacuous, C01_rep_refuses_thirds) as CSV
+    cases, plus a one-row case: (case, expected rounding-free, expected rows or None)"""
+    def row(day, act, sh=None, aps=None, com=None, cur=None, rate=None, af=None, split=None):
+        r = {"sec": "FOO", "td": gen.BASE_DAY + day - 2, "sd": gen.BASE_DAY + day, "act": act,
+             "cur": cur, "rate": (rate, Fraction(rate)) if rate else None, "af": af}
+        if sh is not None:
+            r["sh"] = (sh, Fraction(sh))
+        if aps is not None:
+            r["aps"] = (aps, Fraction(aps))
+        if com is not None:
+            r["com"] = (com, Fraction(com))
+        if split:
+            r["split"] = split
+        return r
+    ex_rep = [row(100, "Buy", "10", "1.5", "1", "USD", "1.3", "Default"),
+              row(140, "Sell", "5", "0.5", "0.25", af="Default"),
+              row(145, "Split", split=("5", "2"), af="Default"),
+              row(150, "Buy", "4", "0.5", "0", af="Default"),
+              row(300, "Buy", "6", "2", "0", af="Spouse"),
+              row(310, "RoC", aps="0.1", af="Default"),
+              row(400, "Sell", "3", "3", "0", af="Spouse")]
+    thirds = [row(100, "Buy", "3", "3", "1"), row(200, "Sell", "1", "5", "0")]
+    one = [row(100, "Buy", "3", "3", "1")]
+    return [({"rows": ex_rep, "inits": {}}, True, 8), ({"rows": thirds, "inits": {}}, False, None),
+            ({"rows": one, "inits": {}}, True, 1)]
+
+
+def rep_pass(res, ctx, cases, hc, enc, impl, mods):
+    """for every case run the extracted rep ledger; when it does not hit an operator failure the
+    case is rounding-free: the rounded model, the exact model and the rep model must be the same
+    report (the theorem, re-checked on the extracted code) and the IMPLEMENTATION's rows must equal
+    the EXACT model's rows bit for bit"""
+    st = ctx["stats"]
+    reps = [core.parse_model(o) for o in run_model([e[0] for e in enc], group="dectransfer")]
+    free = [k for k, r in enumerate(reps) if rep_free(r)]
+    st["rep_evaluations"] += len(cases)
+    exs = [core.parse_model(o) for o in run_model([core.to_ints(cases[k], 0)[0] for k in free])]
+    for k, ex in zip(free, exs):
+        r, i, m = reps[k], impl[k], mods[k]
+        st["rounding_free_cases"] += 1
+        if any(d["act"] == "Sell" and d["pre"][2] is not None for s in r["secs"].values() for d in s["deltas"]):
+            st["rounding_free_with_sale"] += 1
+        if any(d["sfl"] is not None for s in r["secs"].values() for d in s["deltas"]):
+            st["rounding_free_with_superficial_loss"] += 1
+        if any(d["act"] == "Split" for s in r["secs"].values() for d in s["deltas"]):
+            st["rounding_free_with_split"] += 1
+        st["rounding_free_rows"] += sum(len(s["deltas"]) for s in r["secs"].values())
+        if not (r == ex and r == m):
+            what = "rep/exact" if r != ex else "rep/dec"
+            ctx["rep_theorem_diffs"].append((hc[k], what))
+            continue
+        d = core.diff_exact(ex, i)
+        if d is not None:
+            res.violation("failing-input",
+                          "a history whose exact figures are all representable is reported differently "
+                          "from the exact average-cost ledger: " + d,
+                          {"input": hc[k], "difference": d,
+                           "theorem": "C01_app_dec_equals_exact_when_representable"})
+    return reps
+
+
 def check_cases(res, ctx, cases, label):
     exe = ctx["exe"]
     hc = [{"files": corecheck.split_files(c["rows"]), "init": gen.init_specs(c), "render": True} for c in cases]
@@ -132,10 +204,13 @@ def check_cases(res, ctx, cases, label):
     for k, d in e_diffs:
         stats["correspondence_diffs"] += 1
         ctx["corr_diffs"].append((cases[k], hc[k], d))
+    mods = [core.parse_model(mo) for mo in mod_raw]
+    impls = [core.parse_impl(io, e[1], e[2]) for e, io in zip(enc, impl_raw)]
+    ctx["last_reps"] = rep_pass(res, ctx, cases, hc, enc, impls, mods)
     spec_jobs = []
     for k, (c, e, io, mo) in enumerate(zip(cases, enc, impl_raw, mod_raw)):
-        m = core.parse_model(mo)
-        i = core.parse_impl(io, e[1], e[2])
+        m = mods[k]
+        i = impls[k]
         stats["evaluations"] += 1
         stats["impl-" + i["status"]] += 1
         stats["rows-%d" % min(40, 5 * (len(c["rows"]) // 5))] += 1
@@ -197,12 +272,24 @@ def check_cases(res, ctx, cases, label):
 def run(res, ctx):
     tier, seed = ctx["tier"], ctx["seed"]
     rng = random.Random(seed * 7919 + 1)
-    ctx.update(stats=collections.Counter(), seen=set(), samples=[], corr_diffs=[], max_err=Fraction(0), known_hit={})
+    ctx.update(stats=collections.Counter(), seen=set(), samples=[], corr_diffs=[], max_err=Fraction(0), known_hit={},
+               rep_theorem_diffs=[])
     n_arith = 20000 if tier == "quick" else 200000
     av = arithcheck.validate(ctx["exe"], rng, n_arith)
     if av["mismatches"]:
         res.violation("broken-correspondence", "rust_decimal does not behave like Base/Fit.v fit: %s" % av["examples"],
                       {"theorem_or_projection": "arith validation (dec instance of every theorem)", "examples": av["examples"]}, found_input=False)
+    # the Examples of the transfer theorems, through the CSV reader of the real code
+    corpus = rep_corpus()
+    check_cases(res, ctx, [c for c, _, _ in corpus], "rep-corpus")
+    for (c, want_free, want_rows), r in zip(corpus, ctx["last_reps"]):
+        got_rows = sum(len(s_["deltas"]) for s_ in r.get("secs", {}).values())
+        if rep_free(r) != want_free or (want_rows is not None and got_rows != want_rows):
+            res.violation("broken-correspondence",
+                          "the extracted rep ledger does not behave like the Examples C01_rep_nonvacuous / "
+                          "C01_rep_refuses_thirds: rounding-free=%s rows=%d, expected %s / %s" % (rep_free(r), got_rows, want_free, want_rows),
+                          {"theorem_or_projection": "C01_rep_nonvacuous, C01_rep_refuses_thirds",
+                           "input": {"files": corecheck.split_files(c["rows"])}}, found_input=False)
     n = 1000 if tier == "quick" else 30000
     batch = 400
     done = 0
@@ -246,7 +333,24 @@ def run(res, ctx):
                       {"theorem_or_projection": "correspondence projection C01 (rows: action, affiliate, balances, ACB, gain, SfL)",
                        "input": hc, "difference": d, "differing_cases": len(ctx["corr_diffs"])},
                       found_input=False)
+    if ctx["rep_theorem_diffs"] and not res.violations:
+        hc0, what = ctx["rep_theorem_diffs"][0]
+        res.violation("broken-correspondence",
+                      "extracted models disagree on a rounding-free history (%s), against "
+                      "C01_app_dec_equals_exact_when_representable" % what,
+                      {"theorem_or_projection": "C01_app_dec_equals_exact_when_representable (extraction / codec)",
+                       "input": hc0, "differing_cases": len(ctx["rep_theorem_diffs"])}, found_input=False)
     res.coverage.update({
+        "rounding_free_cases": st["rounding_free_cases"],
+        "rounding_free_fraction": round(st["rounding_free_cases"] / max(1, st["rep_evaluations"]), 4),
+        "rounding_free": {"rule": "the extracted ledger under the representable arithmetic rep (group dectransfer) "
+                                  "ends without an operator failure in every security; there the implementation's rows "
+                                  "are compared with the EXACT model's rows bit for bit",
+                          "evaluations": st["rep_evaluations"], "cases": st["rounding_free_cases"],
+                          "rows_compared_exactly": st["rounding_free_rows"],
+                          "with_sale_on_a_cost_base": st["rounding_free_with_sale"],
+                          "with_superficial_loss": st["rounding_free_with_superficial_loss"],
+                          "with_split": st["rounding_free_with_split"]},
         "evaluations": st["evaluations"],
         "distinct_nontrivial": st["distinct_nontrivial"],
         "rule": "seeded random histories (1-3 securities, 1-4 affiliates incl. registered, CAD/USD/other with explicit rates, separate commission currencies, fractional shares, splits, RoC, opening positions) plus long histories; non-trivial = >=2 affiliates or a sale whose per-share cost is not a finite decimal; distinct by SHA-1 of the CSV text",
